@@ -486,6 +486,11 @@ def judge(cases, impl, model, findings, stats, verbose=False):
             kind = "wrong-sequence"
             where, got, want = first_diff(iv, ov)
         sig = {"family": c["family"], "kind": kind, "explained_by": expl}
+        if expl == "none":
+            # an unexplained difference is identified by its abstract history (independent of the case
+            # numbering), so that a listed finding covers exactly that history and nothing else
+            import hashlib as _hl
+            sig["history"] = _hl.sha1(json.dumps(c.get("script"), sort_keys=True).encode()).hexdigest()[:12]
         findings.append(core.Finding(
             "violation", sig,
             "logged sequence differs from the logical update view at entry %s: implementation %s, specification %s" % (where, got, want),
